@@ -321,7 +321,7 @@ def run(prog, tier) -> Result:
                 return None
             run_scenario(prog, res, "R07.4", f"Term.{opn}", f"({label(s1)}) {opn} ({label(s2)})", body, judge)
     un_specs = [[("A", 1), ("2", 1)], [("3", 1), ("A", 1)], [("B", 1), ("V", -2)], [("2", -1)], [("C", 1), ("D", -1)],
-                [("3", 1)], [("2.5", 1)]]
+                [("3", 1)], [("2.5", 1)], [("A", 1)], [("V", 2)], [("B", -1)]]
     for spec in un_specs:
         for n in (2, -1, 0, 3):
             def body(I, c, spec=spec, n=n):
